@@ -123,8 +123,13 @@ def run_unit(name, repo, work, tier):
     return out
 
 
+def serves(props, pid):
+    """does a clause tagged `props` serve property pid (directly, or through registry.IMPLIES)?"""
+    return pid in props or any(pid in registry.IMPLIES.get(t, ()) for t in props)
+
+
 def relevant(f, pid):
-    return pid in f.props
+    return serves(f.props, pid)
 
 
 # names std collections also use: a textual `.insert(` says nothing about which `insert` is meant
@@ -271,7 +276,7 @@ def _run(pid, cfg, tier, seed, repo, work, t0):
         if asm is None:
             continue
         for (fn, label, props, kind, text) in asm.obligations():
-            if pid in props or (kind == "invariant" and pid in asm.fns.get(fn, {}).get("props", ())):
+            if serves(props, pid) or (kind == "invariant" and serves(asm.fns.get(fn, {}).get("props", ()), pid)):
                 obligations.append(dict(unit=u["name"], function=fn, obligation=label, kind=kind, clause=text, backend="verus/z3"))
         for fn, meta in asm.fns.items():
             if pid in meta["props"]:
@@ -412,7 +417,7 @@ def _run(pid, cfg, tier, seed, repo, work, t0):
             fails, out = rp.run_oracles(cfg["replay"], repo, work, s_)
             sweep["seeds"].append(s_)
             for x in fails:
-                if pid not in x.get("props", []):
+                if not serves(x.get("props", []), pid):
                     continue
                 key = "oracle:%s" % x.get("clause")
                 if any(k.get("obligation") == key for k in known_open):
@@ -446,7 +451,7 @@ def _run(pid, cfg, tier, seed, repo, work, t0):
         for grp, test in pg:
             fails = [x for x in fails_all if x.get("test") == test]
             for x in fails:
-                if pid not in x.get("props", []):
+                if not serves(x.get("props", []), pid):
                     continue
                 key = "oracle:%s" % x.get("clause")
                 kf = [k for k in known_open if k.get("obligation") == key]
@@ -475,7 +480,7 @@ def _run(pid, cfg, tier, seed, repo, work, t0):
         fails, out = rp.run_oracles(cfg["replay"], repo, work, seed)
         if out.startswith("ORACLE-BUILD-FAILED"):
             undecided.append("bounded stand-in: the executable oracles do not build against this tree: " + " ".join(re.findall(r"error(?:\[E\d+\])?: [^\n]*", out)[:2])[:300])
-        mine = [x for x in fails if pid in x.get("props", [])]
+        mine = [x for x in fails if serves(x.get("props", []), pid)]
         known_open = [k for k in load_known() if k.get("property") == pid and k.get("status") == "open"]
         ev["coverage"]["bounded_standin"] = dict(reason="verifier undecided: " + "; ".join(undecided)[:400], oracle_groups=cfg["replay"], seed=seed,
                                                  failures=len(mine), note="bounded / sampled, not proof")
